@@ -1,6 +1,7 @@
 package cluster
 
 import (
+	"errors"
 	"time"
 
 	"github.com/weaveworks/mesh"
@@ -9,10 +10,16 @@ import (
 	"github.com/emitter-io/emitter/internal/verifrt"
 )
 
-type c19gossip struct{ sent [][]byte }
+type c19gossip struct {
+	sent   [][]byte
+	failAt int // the unicast with this index (1-based) reports a transport error; 0 = none
+}
 
 func (g *c19gossip) GossipUnicast(dst mesh.PeerName, msg []byte) error {
 	g.sent = append(g.sent, msg)
+	if g.failAt == len(g.sent) {
+		return errors.New("transport: link busy")
+	}
 	return nil
 }
 func (g *c19gossip) GossipBroadcast(update mesh.GossipData)       {}
@@ -62,6 +69,44 @@ func VerifC19Peer(v *verifrt.T) {
 	v.Assert(len(got) == sent, "C19.peer.exactly-once")
 	for i := range got {
 		v.Assert(got[i] == byte(i), "C19.peer.in-order")
+	}
+	v.Assert(len(p.frame) == 0, "C19.peer.queue-empty-after-flush")
+	v.Observe("frames", uint64(len(g.sent)))
+}
+
+// VerifC19PeerChunks: a queued frame larger than the gossip limit (10 MB) leaves in several
+// chunks; one of the unicasts may report a transport error. Every message is still handed
+// to the transport exactly once and in order (the error concerns that chunk's delivery, not
+// the chunks behind it), and the queue is empty afterwards.
+func VerifC19PeerChunks(v *verifrt.T) {
+	g := &c19gossip{failAt: v.Choice(4, "fail-at")}
+	p := &Peer{sender: g, name: 7, frame: message.NewFrame(defaultFrameSize), subs: message.NewCounters(), activity: time.Now().Unix()}
+	const n = 3
+	for i := 0; i < n; i++ {
+		pay := make([]byte, 4<<20) // three of them exceed the limit: at least two chunks
+		pay[0] = byte(i)
+		v.Assert(p.Send(&message.Message{ID: make(message.ID, 24), Channel: []byte("c/"), Payload: pay}) == nil, "C19.peer.send-ok")
+	}
+	p.processSendQueue()
+	p.processSendQueue()
+	v.Assume(time.Now().Unix() < p.activity+30)
+	v.Reach("chunks-flushed")
+	var got []byte
+	for _, b := range g.sent {
+		if v.Symbolic() {
+			got = append(got, b...)
+		} else {
+			f, err := message.DecodeFrame(b)
+			v.Assert(err == nil, "C19.peer.frame-decodes")
+			for _, m := range f {
+				got = append(got, m.Payload[0])
+			}
+		}
+	}
+	v.Assert(len(g.sent) >= 2, "C19.peer.large-frame-leaves-in-chunks")
+	v.Assert(len(got) == n, "C19.peer.chunks.exactly-once")
+	for i := range got {
+		v.Assert(got[i] == byte(i), "C19.peer.chunks.in-order")
 	}
 	v.Assert(len(p.frame) == 0, "C19.peer.queue-empty-after-flush")
 	v.Observe("frames", uint64(len(g.sent)))
